@@ -37,18 +37,18 @@ pub open spec fn le64(x: u64) -> Seq<u8> {
 // --- rule R2: x.to_be_bytes() etc. (std, assumed to return the documented value)
 pub trait VToBytes: Sized {
     type Out;
-    spec fn spec_be(self) -> Seq<u8>;
-    spec fn spec_le(self) -> Seq<u8>;
+    spec fn spec_be_bytes(self) -> Seq<u8>;
+    spec fn spec_le_bytes(self) -> Seq<u8>;
     spec fn out_view(o: Self::Out) -> Seq<u8>;
     fn v_to_be_bytes(self) -> (r: Self::Out)
-        ensures Self::out_view(r) == self.spec_be();
+        ensures Self::out_view(r) == self.spec_be_bytes();
     fn v_to_le_bytes(self) -> (r: Self::Out)
-        ensures Self::out_view(r) == self.spec_le();
+        ensures Self::out_view(r) == self.spec_le_bytes();
 }
 impl VToBytes for u32 {
     type Out = [u8; 4];
-    open spec fn spec_be(self) -> Seq<u8> { be32(self) }
-    open spec fn spec_le(self) -> Seq<u8> { le32(self) }
+    open spec fn spec_be_bytes(self) -> Seq<u8> { be32(self) }
+    open spec fn spec_le_bytes(self) -> Seq<u8> { le32(self) }
     open spec fn out_view(o: [u8; 4]) -> Seq<u8> { o@ }
     #[verifier::external_body]
     fn v_to_be_bytes(self) -> (r: [u8; 4]) { self.to_be_bytes() }
@@ -57,8 +57,8 @@ impl VToBytes for u32 {
 }
 impl VToBytes for u64 {
     type Out = [u8; 8];
-    open spec fn spec_be(self) -> Seq<u8> { be64(self) }
-    open spec fn spec_le(self) -> Seq<u8> { le64(self) }
+    open spec fn spec_be_bytes(self) -> Seq<u8> { be64(self) }
+    open spec fn spec_le_bytes(self) -> Seq<u8> { le64(self) }
     open spec fn out_view(o: [u8; 8]) -> Seq<u8> { o@ }
     #[verifier::external_body]
     fn v_to_be_bytes(self) -> (r: [u8; 8]) { self.to_be_bytes() }
@@ -147,3 +147,14 @@ pub proof fn lemma_to_vec_u8(s: Seq<u8>, r: Seq<u8>)
     requires r.len() == s.len(), forall|i: int| 0 <= i < s.len() ==> cloned::<u8>(s[i], #[trigger] r[i])
     ensures r == s
 { assert(r =~= s); }
+
+// --- str::as_bytes: the UTF-8 encoding (uninterpreted), which for ASCII text is the code points themselves
+pub uninterp spec fn str_bytes(s: Seq<char>) -> Seq<u8>;
+pub broadcast proof fn axiom_str_bytes_ascii(s: Seq<char>)
+    requires forall|i: int| 0 <= i < s.len() ==> (s[i] as u32) < 128
+    ensures #[trigger] str_bytes(s).len() == s.len(), forall|i: int| 0 <= i < s.len() ==> str_bytes(s)[i] == s[i] as u8
+{ admit(); }
+#[verifier::external_body]
+pub fn v_str_as_bytes(s: &str) -> (r: &[u8])
+    ensures r@ == str_bytes(s@)
+{ s.as_bytes() }
